@@ -224,7 +224,7 @@ def PhOk (ph : Phase) (rt len idx : Nat) : PC → Prop
   | .rtS1 => ph = .oper ∧ rt = 0
   | .op => ph = .oper ∧ rt = 1
   | .rs k => ph = .res k ∧ k ≤ len ∧ rt = 0
-  | .opS => ph = .idle ∧ rt = 1
+  | .opS => ph = .idle ∧ rt = 1 ∧ len = 1
   | .rmL1a r => ph = .idle ∧ rt = 0 ∧ r = idx
   | .addL1 _ | .addL2 _ | .stwL1 | .disB1 | .disB2 | .stwUL | .rmL1 | .rmL2 | .rmL3 => ph = .idle ∧ rt = 0
   | _ => True
